@@ -18,6 +18,8 @@ pub enum Reply {
     Died(String),
     /// no answer within the watchdog
     Hung,
+    /// not run: the batch was cut short after repeated hangs / worker deaths (those are reported; the rest is not explored)
+    Skipped,
 }
 
 pub struct PoolConfig {
@@ -26,6 +28,8 @@ pub struct PoolConfig {
     pub envs: Vec<(String, String)>,
     pub workers: usize,
     pub watchdog: Duration,
+    /// stop dispatching new cases once this many cases hung or killed their worker (0 = never)
+    pub max_lost: usize,
 }
 
 struct Worker {
@@ -94,12 +98,14 @@ pub fn run_all(cfg: &PoolConfig, cases: &[Value]) -> Vec<Reply> {
     let n = cases.len();
     let results: Arc<Mutex<Vec<Option<Reply>>>> = Arc::new(Mutex::new(vec![None; n]));
     let next = Arc::new(AtomicUsize::new(0));
+    let lost = Arc::new(AtomicUsize::new(0));
     let lines: Arc<Vec<String>> = Arc::new(cases.iter().map(|c| serde_json::to_string(c).unwrap()).collect());
     let workers = cfg.workers.max(1).min(n.max(1));
     std::thread::scope(|scope| {
         for _ in 0..workers {
             let results = results.clone();
             let next = next.clone();
+            let lost = lost.clone();
             let lines = lines.clone();
             scope.spawn(move || {
                 let mut w: Option<Worker> = None;
@@ -107,6 +113,10 @@ pub fn run_all(cfg: &PoolConfig, cases: &[Value]) -> Vec<Reply> {
                     let i = next.fetch_add(1, Ordering::SeqCst);
                     if i >= n {
                         break;
+                    }
+                    if cfg.max_lost > 0 && lost.load(Ordering::SeqCst) >= cfg.max_lost {
+                        results.lock().unwrap()[i] = Some(Reply::Skipped);
+                        continue;
                     }
                     if w.is_none() {
                         w = Some(spawn(cfg));
@@ -139,6 +149,9 @@ pub fn run_all(cfg: &PoolConfig, cases: &[Value]) -> Vec<Reply> {
                             }
                         }
                     };
+                    if matches!(reply, Reply::Died(_) | Reply::Hung) {
+                        lost.fetch_add(1, Ordering::SeqCst);
+                    }
                     results.lock().unwrap()[i] = Some(reply);
                 }
                 if let Some(mut wk) = w {
@@ -154,6 +167,6 @@ pub fn run_all(cfg: &PoolConfig, cases: &[Value]) -> Vec<Reply> {
 
 /// Run a single case in a fresh worker process (used to confirm a violation before reporting it).
 pub fn run_one_fresh(cfg: &PoolConfig, case: &Value) -> Reply {
-    let one = PoolConfig { exe: cfg.exe.clone(), args: cfg.args.clone(), envs: cfg.envs.clone(), workers: 1, watchdog: cfg.watchdog };
+    let one = PoolConfig { exe: cfg.exe.clone(), args: cfg.args.clone(), envs: cfg.envs.clone(), workers: 1, watchdog: cfg.watchdog, max_lost: 0 };
     run_all(&one, std::slice::from_ref(case)).pop().unwrap()
 }
